@@ -11,7 +11,7 @@ use neurons::tensor::Tensor;
 
 pub fn meta(_ctx: &Ctx) -> Meta {
     Meta {
-        rule: "data-set sizes M in {1,2,3,63,64,65,127,128,129,130,200} (below, at, above the internal chunk size 64, not multiples of it) x heads {soft-max(3), linear(1), linear(3), sigmoid(2)} x bodies {dense, conv+dense, conv+pool+dense, dense with a multiplicative skip connection, dense with a loop connection} x 7 objectives x tolerances {1e-6,0.1,0.5,10}; inputs pairwise distinct; targets placed clearly inside / outside the tolerance per component, arg-max unique. Oracles: predict_batch(xs)[i] bit-equal predict(xs[i]) in input order, length M; predict = last activation of forward; validate loss = mean of objective.loss(predict(x),t); accuracy by the three documented rules. A state is one (M, head, body, objective, tolerance) configuration; transitions = predictions made; non-trivial = M >= 2".into(),
+        rule: "data-set sizes M in {1,2,3,63,64,65,127,128,129,130,200} (below, at, above the internal chunk size 64, not multiples of it) x heads {soft-max(3), linear(1), linear(3), sigmoid(2)} x bodies {dense, conv+dense, conv+pool+dense, dense with a multiplicative skip connection, dense with a loop connection} x 7 objectives x tolerances {1e-6,0.1,0.5,10}; inputs pairwise distinct; targets placed clearly inside / outside the tolerance per component, arg-max unique. Oracles: predict_batch(xs)[i] bit-equal predict(xs[i]) in input order, length M; predict = last activation of forward; validate loss = mean of objective.loss(predict(x),t); accuracy by the three documented rules; validate and predict_batch repeated inside pools of 1 and 2 workers. A state is one (M, head, body, objective, tolerance) configuration; transitions = predictions made; non-trivial = M >= 2".into(),
         bound: "M <= 200; complete product".into(),
         exhaustive: true,
         assumptions: vec!["the mean is compared with tolerance (M+2)*eps*mean|term| (any summation order)".into()],
@@ -181,6 +181,29 @@ pub fn check(seed: u64, case: &Kv, rep: &mut Report) {
     let losses: Vec<f64> = (0..m).map(|i| objf.loss(&Tensor::single(singles[i].clone()), &targets[i]).0 as f64).collect();
     let want_loss = losses.iter().sum::<f64>() / m as f64;
     let want_a = want_acc.iter().sum::<f64>() / m as f64;
+    // the same aggregation inside pools of one and two workers (chunking must not depend on the pool)
+    for t in [1usize, 2] {
+        let pool = rayon::ThreadPoolBuilder::new().num_threads(t).build().expect("pool");
+        rep.transitions += 2 * m as u64;
+        match guard(|| pool.install(|| (lib.validate(&refs, &trefs, tol), lib.predict_batch(&refs)))) {
+            Ok(((loss, acc), batch)) => {
+                let mean_abs = losses.iter().map(|l| l.abs()).sum::<f64>() / m as f64;
+                let tl = (m as f64 + 2.0) * f32::EPSILON as f64 * mean_abs + 1e-30;
+                let loss_ok = (loss.is_nan() && want_loss.is_nan()) || (loss as f64 - want_loss).abs() <= tl;
+                if !loss_ok || (acc as f64 - want_a).abs() > (m as f64 + 2.0) * f32::EPSILON as f64 {
+                    rep.violate(
+                        "C12 validate inside a small thread pool is not the mean over all samples",
+                        format!("{} worker(s), M = {}: validate = ({:e}, {}), expected ({:e}, {})", t, m, loss, acc, want_loss, want_a),
+                        case,
+                    );
+                }
+                if batch.len() != m || (0..m).any(|i| !crate::util::bits_eq(&flat_dims(&batch[i]).map(|d| d.1).unwrap_or_default(), &singles[i])) {
+                    rep.violate("C12 predict_batch inside a small thread pool", format!("{} worker(s), M = {}", t, m), case);
+                }
+            }
+            Err(e) => rep.violate("C12 validate/predict_batch panics inside a small thread pool", crate::util::first_line(&e), case),
+        }
+    }
     rep.transitions += m as u64;
     match guard(|| lib.validate(&refs, &trefs, tol)) {
         Ok((loss, acc)) => {
